@@ -3,7 +3,7 @@
 # parallel-safe variant of try_seed.sh: verifies a seeded change (tests, demo with / without) and runs the given quick checks against it
 # from a SEPARATE checkout of /verif (its own lean build, Generated.lean, evidence), so /verif itself and other runs are not disturbed.
 T=$1; W=$2; ID=$3; shift 3
-git -C $T checkout -q --detach $(git -C /verif rev-parse HEAD) 2>/dev/null
+git -C $T checkout -q -f --detach $(git -C /verif rev-parse HEAD) 2>/dev/null
 cd $W || exit 2
 echo "--- tests with change"; /venv/bin/python -m pytest -q -p no:cacheprovider --timeout=900 -x 2>&1 | tail -1
 echo "--- demo with change"; /venv/bin/python demo_$ID.py >$W/.demo_with.log 2>&1; echo "exit=$?"
